@@ -263,6 +263,79 @@ def h4_lzw(n=4, timeout=120, **kw):
                          timeout, concretize=conc)
 
 
+# ------------------------------------------------------------------------------- H4 one decoder step from an arbitrary valid state
+LZW_SIZES = [258, 259, 510, 511, 512, 1022, 1023, 1024, 2046, 2047, 2048, 4094, 4095]
+
+
+def _lzw_width(table_len):
+    """code width in force when the table holds table_len entries (PDF LZW, EarlyChange=1: the width grows one code early)"""
+    return 9 if table_len < 511 else 10 if table_len < 1023 else 11 if table_len < 2047 else 12
+
+
+def _lzw_entry(i):
+    return bytes([i]) if i < 256 else bytes([(i >> 8) & 255, i & 255, 7])        # distinct strings; entries 256, 257 are None
+
+
+def _lzwstep(lzw, size, has_prev, code):
+    """builds the decoder state, feeds `code` (int or symbolic int), returns None or what differs from the specification"""
+    import io
+    entry = _lzw_entry
+    d = lzw.LZWDecoder(io.BytesIO(b""))
+    d.table = [entry(i) if i not in (256, 257) else None for i in range(size)]
+    d.nbits = _lzw_width(size)
+    prev = entry(65) if has_prev else b""
+    d.prevbuf = prev
+    try:
+        out = d.feed(code)
+        raised = None
+    except lzw.CorruptDataError as e:
+        out, raised = None, e
+    except Exception as e:
+        return "feed raised %s: %s" % (type(e).__name__, e)
+    c = int(code)                        # decided by now (the decoder compared / indexed with it)
+    state = "table %d entries, width %d, previous %r, output %r, raised %r" % (len(d.table), d.nbits, d.prevbuf, out, raised)
+    if c == 256:
+        ok = raised is None and out == b"" and len(d.table) == 258 and d.nbits == 9 and d.prevbuf == b""
+        return None if ok else "clear-table code with %d entries: state not reset (%s)" % (size, state)
+    if c == 257:
+        return None if raised is None and out == b"" and len(d.table) == size else "end-of-data code changed the state (%s)" % state
+    if not has_prev:
+        if c < 256:
+            ok = raised is None and out == entry(c) and d.prevbuf == entry(c) and len(d.table) == 258 and d.nbits == 9
+            return None if ok else "first code %d after a clear: %s" % (c, state)
+        return None if raised is not None else "code %d beyond the table right after a clear was accepted" % c
+    if c <= size:
+        exp = entry(c) if c < size else prev + prev[:1]
+        ok = raised is None and out == exp and len(d.table) == size + 1 and d.table[size] == prev + exp[:1] and d.prevbuf == exp and d.nbits == _lzw_width(size + 1)
+        return None if ok else "code %d with %d entries: expected output %r and width %d, got %s" % (c, size, exp, _lzw_width(size + 1), state)
+    return None if raised is not None else "code %d beyond the next free entry (%d) was accepted" % (c, size)
+
+
+def h4_lzwstep(timeout=150, part=None, **kw):
+    """LZWDecoder.feed as a state machine: from every valid state (table size at and around each width boundary, a previous string or none) one
+    symbolic code is fed; output, new table size, code width and previous string are those of the LZW specification (TIFF 6.0 section 13 / ISO 32000-1 7.4.4)"""
+    import pdfminer.lzw as lzw
+    lzw.bytes = sbytes.BytesT
+
+    def fn(ex):
+        size = LZW_SIZES[ex.choice(len(LZW_SIZES), "size")]
+        has_prev = ex.choice(2, "has_prev") == 1
+        if not has_prev and size != 258:
+            raise symx.Abort()                         # right after a clear code the table has exactly 258 entries
+        code = ex.int("code", 0, 4097)
+        # the decoder only compares the code with 256, 257 and the table size and indexes the table with it: codes around those values (and the extremes) are kept
+        ex.assume(SB(z3.Or(code.e <= 1, z3.And(code.e >= 254, code.e <= 260), z3.And(code.e >= size - 3, code.e <= size + 2), code.e >= 4095)))
+        info = {"size": size, "has_prev": has_prev, "code": code}
+        err = _lzwstep(lzw, size, has_prev, code)
+        ex.require(err is None, err or "", **info)
+
+    def conc(m, info):
+        return {"size": info["size"], "has_prev": info["has_prev"], "code": symx.mval(m, info["code"])}
+    return core.run_symx("H4_lzwstep", fn, [lzw.LZWDecoder.feed], {"table sizes": LZW_SIZES, "previous string": "present / absent (after a clear)",
+                                                                   "code": "symbolic in {0,1} u [254,260] u [size-3,size+2] u {4095..4097}, concretised by forking"},
+                         timeout, concretize=conc, part=part, int_lo=0, int_hi=4097)
+
+
 # ------------------------------------------------------------------------------- H5 ASCIIHex framing
 def _py_unhexlify(x):
     x = SBy.of(x)
@@ -511,6 +584,9 @@ def replay(harness, inp):
             if v != exp:
                 return "LZWDecoder(%r).readbits%r: got %d, the bit slice is %d" % (inp["data"], inp["widths"], v, exp)
         return None
+    if harness == "H4_lzwstep":
+        import pdfminer.lzw as lzw
+        return _lzwstep(lzw, inp["size"], inp["has_prev"], inp["code"])
     if harness == "H4_lzw":
         from pdfminer.lzw import lzwdecode
         try:
@@ -569,6 +645,7 @@ def jobs(tier):
         J.append(Job("H3_runlength:n4", "h3_rl", {"n": 4}, 100, "H3_runlength"))
         J.append(Job("H4_readbits:3", "h4_readbits", {"nbytes": 3}, 100, "H4_readbits"))
         J.append(Job("H4_lzw:n4", "h4_lzw", {"n": 4}, 100, "H4_lzw"))
+        J.append(Job("H4_lzwstep", "h4_lzwstep", {}, 200))
         J.append(Job("H5_asciihex:n2", "h5_hex", {"n": 2}, 150, "H5_asciihex"))
         J.append(Job("H6_pipeline:2", "h6_pipeline", {"maxlen": 2}, 150, "H6_pipeline"))
         J.append(Job("H7_payload:n3", "h7_payload", {"n": 3}, 150, "H7_payload"))
@@ -582,6 +659,7 @@ def jobs(tier):
         J.append(Job("H3_runlength:n6", "h3_rl", {"n": 6}, 600, "H3_runlength"))
         J.append(Job("H4_readbits:5", "h4_readbits", {"nbytes": 5}, 600, "H4_readbits"))
         J.append(Job("H4_lzw:n7", "h4_lzw", {"n": 7}, 600, "H4_lzw"))
+        J.append(Job("H4_lzwstep", "h4_lzwstep", {}, 400))
         J.append(Job("H5_asciihex:n3", "h5_hex", {"n": 3}, 600, "H5_asciihex"))
         for k in range(4):
             J.append(Job("H6_pipeline:3:%d" % k, "h6_pipeline", {"maxlen": 3, "part": [k, 4, 8]}, 900, "H6_pipeline"))
